@@ -454,21 +454,32 @@ def map_rules(chk, program):
         old = ('call', ('attr', MAP, 'get'), (src2,), ())
         reuse = ('bool', 'and', (('cmp', 'is not', old, NONE), ('cmp', '==', ('attr', old, 'name'), data_int)))
         reuse_ok = sym.mk_not(reuse) in [_canon(x) for x in g]
-        chk.check(reuse_ok, 'MAP-REPLACE', 'reuse-only-when-NAME-unchanged', file=DEC, line=st[-1], func='_call_decode_function',
-                  expected='the stored identity is kept only if it exists and its NAME equals the whole payload integer; otherwise replaced', found=[show(x)[:120] for x in g[-1:]])
-        ident = adds[0][2][2][4] if len(adds[0][2][2]) > 4 else None
+        # the spelling of the reuse test is free (`old is not None and old.name == n`, its De Morgan dual, ...): the table below (no entry / same NAME /
+        # other NAME) decides; the recognised spelling is recorded as confirmed
+        if reuse_ok:
+            chk.ok('MAP-REPLACE', 'reuse-only-when-NAME-unchanged', file=DEC, line=st[-1], func='_call_decode_function',
+                   expected='the stored identity is kept only if it exists and its NAME equals the whole payload integer; otherwise replaced', found=[show(x)[:120] for x in g[-1:]])
+        # positional and keyword arguments of add_data(...) by the method's own parameter list
+        adp_ = [a_.arg for a_ in program.fn('message', 'NMEA2000Message.add_data').args.args][1:]
+        pos_ = list(adds[0][2][2]) + [None] * len(adp_)
+        kw_ = dict(adds[0][2][3])
+        bound_ = [kw_.get(n_, pos_[i_]) for i_, n_ in enumerate(adp_)]
+        ident = bound_[4] if len(bound_) > 4 else None
         leaves = [_canon(x) for x in _ite_leaves(ident)] if ident is not None else []
         okat = ident is not None and set(leaves) == {old, _canon(new), ('param', ex2.params[7])}
         chk.check(okat, 'MAP-ATTACH', 'add_data::identity', file=DEC, line=adds[0][-1], func='_call_decode_function',
                   expected='identity attached = the map entry for this source (claim: reused or new entry; otherwise the looked-up one)', found=show(ident)[:200] if ident else None)
-        a = adds[0][2][2]
+        a = bound_
         want = [('param', ex2.params[i]) for i in (3, 4, 2, 5)]     # src, dest, priority, timestamp
         chk.check(list(a[:4]) == want, 'MAP-ATTACH', 'add_data::addressing', file=DEC, line=adds[0][-1], func='_call_decode_function',
                   expected='add_data(src, dest, priority, timestamp, ...)', found=[show(x) for x in a[:4]])
     # table: which identity is attached to the claim message itself, per state of the map
     if adds:
         sf = F.split_facts(program); cf = F.ctor_facts(program)
-        ident_term = adds[0][2][2][4] if len(adds[0][2][2]) > 4 else None
+        adp_ = [a_.arg for a_ in program.fn('message', 'NMEA2000Message.add_data').args.args][1:]
+        pos_ = list(adds[0][2][2]) + [None] * len(adp_)
+        kw_ = dict(adds[0][2][3])
+        ident_term = kw_.get(adp_[4], pos_[4]) if len(adp_) > 4 else None
         for (excl, old_name, tag) in [(e_, o_, t_ + ('' if not e_ else '/claim-filtered')) for e_ in ([], [consts['ISO_CLAIM_PGN']]) for o_, t_ in ((None, 'no-entry'), (12345, 'same-NAME'), (999, 'other-NAME'))]:
             attrs = F.runtime_attrs(program, sf, cf, consts, excl, [])
             iso = None if old_name is None else F.Stub(name=old_name, manufacturer_code=None)
@@ -587,40 +598,56 @@ def isoname_ids(chk, program):
         for ch in s:
             out += ('_' + ch.lower()) if ch.isupper() else ch
         return out
-    for node in ast.walk(fn):
-        if isinstance(node, ast.Assign) and len(node.targets) == 1 and isinstance(node.targets[0], ast.Attribute) and isinstance(node.targets[0].value, ast.Name) and node.targets[0].value.id == 'self':
-            attr = node.targets[0].attr
-            calls = [c for c in ast.walk(node.value) if isinstance(c, ast.Call) and isinstance(c.func, ast.Attribute) and c.func.attr in ('get_field_int_value_by_id', 'get_field_str_value_by_id')]
-            for c in calls:
-                n += 1
-                fid = c.args[0].value if c.args and isinstance(c.args[0], ast.Constant) else None
-                f = fields.get(fid)
-                kind = 'int' if 'int' in c.func.attr else 'str'
-                okf = f is not None and ((kind == 'int' and f.type in ('NUMBER',)) or (kind == 'str' and f.type in ('LOOKUP', 'INDIRECT_LOOKUP')))
-                chk.check(okf, 'ISONAME-IDS', f"IsoName.{attr}::{fid}", file=M, line=c.lineno, func='IsoName.__init__',
-                          expected=f"field id exists in {d.id} and is {'NUMBER' if kind == 'int' else 'a LOOKUP kind'}", found=f.type if f else 'no such field id')
-                if len(calls) == 1 and f is not None:
-                    chk.check(snake(fid) == attr, 'ISONAME-IDS', f"IsoName.{attr}::same-name", file=M, line=c.lineno, func='IsoName.__init__', expected=snake(fid), found=attr,
-                              detail='each identity attribute is filled from the field of the same name')
-            if attr == 'device_instance':
-                # (upper << BitLength(lower)) | lower
-                v = node.value
-                ok = False
-                if isinstance(v, ast.BinOp) and isinstance(v.op, ast.BitOr) and isinstance(v.left, ast.BinOp) and isinstance(v.left.op, ast.LShift):
-                    up = v.left.left; sh = v.left.right; lo = v.right
-                    upid = up.args[0].value if isinstance(up, ast.Call) and up.args and isinstance(up.args[0], ast.Constant) else None
-                    loid = lo.args[0].value if isinstance(lo, ast.Call) and lo.args and isinstance(lo.args[0], ast.Constant) else None
-                    lf = fields.get('deviceInstanceLower')
-                    ok = upid == 'deviceInstanceUpper' and loid == 'deviceInstanceLower' and isinstance(sh, ast.Constant) and lf is not None and sh.value == lf.bit_length
-                chk.check(ok, 'ISONAME-IDS', 'IsoName.device_instance::composition', file=M, line=node.lineno, func='IsoName.__init__',
-                          expected='(deviceInstanceUpper << BitLength(deviceInstanceLower)) | deviceInstanceLower', found=ast.unparse(v)[:120])
-            if attr == 'arbitrary_address_capable':
-                lit = [c for c in ast.walk(node.value) if isinstance(c, ast.Constant) and isinstance(c.value, str) and c.value not in fields]
-                f = fields.get('arbitraryAddressCapable')
-                names = [nm for v, nm in db.lookups.get(f.lookup, [])] if f is not None and f.lookup else []
-                chk.check(len(lit) == 1 and lit[0].value in names, 'ISONAME-IDS', 'IsoName.arbitrary_address_capable::literal', file=M, line=node.lineno, func='IsoName.__init__',
-                          expected=f"compared with a name of lookup {f.lookup if f else '?'} ({names})", found=[x.value for x in lit])
-            if attr == 'name':
-                params = [a.arg for a in fn.args.args]
-                chk.check(isinstance(node.value, ast.Name) and node.value.id == params[2], 'ISONAME-IDS', 'IsoName.name', file=M, line=node.lineno, expected='the 64-bit NAME handed in', found=ast.unparse(node.value), nontrivial=False)
+    # over the terms of the stores (locals and bound-method aliases substituted), not the spelling
+    ex = sym.SymExec(fn)
+    try:
+        ex.run()
+    except sym.Unsupported as u:
+        raise AnalysisError(f"IsoName.__init__: {u}")
+    params = ex.params
+    selfp, msgp = ('param', params[0]), ('param', params[1])
+    GETTERS = ('get_field_int_value_by_id', 'get_field_str_value_by_id')
+    def getter_calls(t):
+        return [x for x in sym.walk(t) if x[0] == 'call' and x[1][0] == 'attr' and x[1][2] in GETTERS]
+    def fid_of(c):
+        return c[2][0][1] if c[2] and sym.is_const(c[2][0]) else None
+    for e in ex.events:
+        if e[0] != 'store' or e[2][0] != 'attr' or e[2][1] != selfp:
+            continue
+        attr, v, line = e[2][2], e[3], e[-1]
+        calls = getter_calls(v)
+        for c in calls:
+            n += 1
+            fid = fid_of(c)
+            f = fields.get(fid)
+            kind = 'int' if 'int' in c[1][2] else 'str'
+            okf = f is not None and c[1][1] == msgp and ((kind == 'int' and f.type in ('NUMBER',)) or (kind == 'str' and f.type in ('LOOKUP', 'INDIRECT_LOOKUP')))
+            chk.check(okf, 'ISONAME-IDS', f"IsoName.{attr}::{fid}", file=M, line=line, func='IsoName.__init__',
+                      expected=f"field id exists in {d.id} and is {'NUMBER' if kind == 'int' else 'a LOOKUP kind'}", found=f.type if f else 'no such field id')
+            if len(calls) == 1 and f is not None:
+                chk.check(snake(fid) == attr, 'ISONAME-IDS', f"IsoName.{attr}::same-name", file=M, line=line, func='IsoName.__init__', expected=snake(fid), found=attr,
+                          detail='each identity attribute is filled from the field of the same name')
+        if attr == 'device_instance':
+            # (upper << BitLength(lower)) | lower   (also written with + or *)
+            ok = False
+            lf = fields.get('deviceInstanceLower')
+            if v[0] == 'binop' and v[1] in ('|', '+'):
+                for hi, lo in ((v[2], v[3]), (v[3], v[2])):
+                    sh = None
+                    if hi[0] == 'binop' and hi[1] == '<<' and sym.is_const(hi[3]):
+                        up, sh = hi[2], hi[3][1]
+                    elif hi[0] == 'binop' and hi[1] == '*' and sym.is_const(hi[3]) and isinstance(hi[3][1], int) and hi[3][1] > 0 and hi[3][1] & (hi[3][1] - 1) == 0:
+                        up, sh = hi[2], hi[3][1].bit_length() - 1
+                    if sh is not None and up[0] == 'call' and lo[0] == 'call' and fid_of(up) == 'deviceInstanceUpper' and fid_of(lo) == 'deviceInstanceLower' and lf is not None and sh == lf.bit_length:
+                        ok = True
+            chk.check(ok, 'ISONAME-IDS', 'IsoName.device_instance::composition', file=M, line=line, func='IsoName.__init__',
+                      expected='(deviceInstanceUpper << BitLength(deviceInstanceLower)) | deviceInstanceLower', found=show(v)[:120])
+        if attr == 'arbitrary_address_capable':
+            lit = [x for x in sym.walk(v) if sym.is_const(x) and isinstance(x[1], str) and x[1] not in fields]
+            f = fields.get('arbitraryAddressCapable')
+            names = [nm for vv, nm in db.lookups.get(f.lookup, [])] if f is not None and f.lookup else []
+            chk.check(len(lit) == 1 and lit[0][1] in names, 'ISONAME-IDS', 'IsoName.arbitrary_address_capable::literal', file=M, line=line, func='IsoName.__init__',
+                      expected=f"compared with a name of lookup {f.lookup if f else '?'} ({names})", found=[x[1] for x in lit])
+        if attr == 'name':
+            chk.check(v == ('param', params[2]), 'ISONAME-IDS', 'IsoName.name', file=M, line=line, expected='the 64-bit NAME handed in', found=show(v), nontrivial=False)
     chk.floor('isoname_field_reads', n, 9)
